@@ -64,7 +64,15 @@ finally:
 '''
 
 
-def cyc_case(n, typed, worker, timeout=60):
+def cyc_case(n, typed, worker, timeout=120):
+    """a hang verdict is repeated once with a four times longer watchdog (loaded machines)"""
+    o = _cyc_case(n, typed, worker, timeout)
+    if o["hung"]:
+        o = _cyc_case(n, typed, worker, timeout * 4)
+    return o
+
+
+def _cyc_case(n, typed, worker, timeout):
     env = dict(os.environ)
     try:
         r = subprocess.run([sys.executable, "-c", CHILD, str(n), "typed" if typed else "untyped", worker], env=env, capture_output=True, text=True, timeout=timeout)
@@ -94,7 +102,7 @@ def graph_case(n, edges):
         raise TimeoutError("sorting did not terminate")
 
     old = signal.signal(signal.SIGALRM, on_alarm)
-    signal.alarm(3)
+    signal.alarm(15)
     try:
         g.sorting()
         return "returned", [nd.name for nd in g.sorted_nodes]
@@ -142,7 +150,7 @@ def run(ctx):
 
     dom = ctx.domain(
         "cyclic-digraphs",
-        bound="every directed graph on <= 4 nodes (no self-loops in quick; with self-loops thorough) whose edge set contains a cycle; DiGraph.sorting under a 3 s alarm",
+        bound="every directed graph on <= 4 nodes (no self-loops in quick; with self-loops thorough) whose edge set contains a cycle; DiGraph.sorting under a 15 s alarm",
         rule="edge subsets enumerated exhaustively, only cyclic ones kept; non-trivial: all",
         exhaustive=True,
     )
@@ -161,7 +169,7 @@ def run(ctx):
                     ctx.fail("sorting-returns-on-cycle", f"DiGraph.sorting returned {val} for the cyclic graph {edges} instead of reporting an error", {"nodes": n, "edges": list(edges)}, domain=dom)
     dom2 = ctx.domain(
         "cyclic-workflows",
-        bound="workflows whose first node takes the last node's output via workflow.this()[...].inputs assignment: cycle length 1..3 x typed/untyped x debug worker (thorough: + cf worker), 60 s watchdog",
+        bound="workflows whose first node takes the last node's output via workflow.this()[...].inputs assignment: cycle length 1..3 x typed/untyped x debug worker (thorough: + cf worker), watchdog 120 s, repeated once with 480 s before a hang is reported",
         rule="one child process per case; non-trivial: all",
         exhaustive=True,
     )
@@ -172,7 +180,7 @@ def run(ctx):
                 o = cyc_case(n, typed, worker)
                 dom2.case((n, typed, worker), sample=o)
                 if o["hung"]:
-                    ctx.fail(f"cyclic-workflow-hangs:{'typed' if typed else 'untyped'}", f"submission of a cyclic workflow (cycle length {n}, typed={typed}, worker={worker}) did not end within 60 s", o, domain=dom2)
+                    ctx.fail(f"cyclic-workflow-hangs:{'typed' if typed else 'untyped'}", f"submission of a cyclic workflow (cycle length {n}, typed={typed}, worker={worker}) did not end within the watchdog (120 s, then 480 s)", o, domain=dom2)
                 elif not o["outcome"].startswith("RAISED"):
                     ctx.fail("cyclic-workflow-no-error", f"cyclic workflow gave {o['outcome']}", o, domain=dom2)
 
